@@ -179,8 +179,8 @@ def evalExpr : Nat → Env → Expr → Res
   | 0, ρ, e => evalCore (fun _ => none) ρ e
   | n + 1, ρ, e => evalCore (evalExpr n ρ) ρ e
 
-/-- nesting depth allowed for `eval()` inside `eval()`-ed rules (the harness generates at most one level) -/
-def evalFuel : Nat := 2
+/-- `maxEvalNesting`: how deep `eval()` may be nested inside `eval()`-ed rules -/
+def evalFuel : Nat := 32
 
 /-- `util.HasEval` on the AST -/
 def Expr.hasEval : Expr → Bool
